@@ -100,6 +100,7 @@ EXTRA = {
  "C16": TABLES.format(what="method / version / media-type / status tables (both directions) and HTTP_SCHEME_PREFIX"),
  "C18": TABLES.format(what="MAX_CONNECTIONS and the size of the event array (MAX_CONNECTIONS + 2)"),
  "C06": " Extended to histories that also read: read_preserves_unsent (a read with ANY recv result — data, end of stream, errno, a parse error and its reset — leaves the partly written response and the queue untouched and only appends the interim responses it queues) and history_prefix_io (the prefix law over every history of enqueue / write / read / pop / clear); the correspondence interleaves accepted, rejected, partial and pipelined input with queued output.",
+ "C12": " Extended to the pop side (Props/C12Pop.lean): read_ignores_queue (a read appends to the queue of completed requests and never looks at it) and pop_timing_irrelevant (for ANY interleaving of pops with the reads, the requests handed out followed by those still queued are the queue of the run without pops: same requests, same descriptors, same order); the correspondence replays a quarter of its histories with the pops delayed.",
  "C07": " The suite srv-fault injects, at the libc boundary of the harness process (interposed recvmsg/write, nothing in /repo instrumented), reads that end or fail on a plain IN event and writes that return zero / EINTR / EAGAIN / EPIPE / short counts; a 500 must reach only a client whose read failed.",
  "C09": " The suite srv-fault injects, at the libc boundary of the harness process (interposed recvmsg/write, nothing in /repo instrumented), reads that end or fail on a plain IN event and writes that return zero / EINTR / EAGAIN / EPIPE / short counts: the poll must keep returning normally, the witness must be served in full, and a connection the server was told has ended must be released once answered.",
 }
